@@ -22,11 +22,14 @@ import (
 )
 
 type Op struct {
-	Op     string  `json:"op"` // load start stop stopforce unload fault batch
-	Mode   string  `json:"mode"`
-	I      int     `json:"i"`
-	Reason string  `json:"reason"`
-	Faults [][]any `json:"faults"`
+	Op     string `json:"op"` // load start stop stopforce unload fault fault2
+	Mode   string `json:"mode"`
+	I      int    `json:"i"`
+	Reason string `json:"reason"`
+	// fault2: member J sits in a handler while member I dies with Reason; J then returns Reason2 from that handler
+	J       int     `json:"j"`
+	Reason2 string  `json:"reason2"`
+	Faults  [][]any `json:"faults"`
 }
 
 type History struct {
@@ -53,6 +56,8 @@ type Line struct {
 	OpMode   string  `json:"opmode"`
 	I        int     `json:"i"`
 	Reason   string  `json:"reason"`
+	J        int     `json:"j"`
+	Reason2  string  `json:"reason2"`
 	Faults   [][]any `json:"faults"`
 	Res      string  `json:"res"`
 	Hung     bool    `json:"hung"`
@@ -294,7 +299,7 @@ func (r *Runner) Run(h *History) ([]Line, bool, error) {
 	lines = append(lines, cfg)
 	hung := false
 	for _, op := range h.Ops {
-		ln := Line{P: h.ID, Ev: "op", Op: op.Op, OpMode: op.Mode, I: op.I, Reason: op.Reason, Faults: op.Faults}
+		ln := Line{P: h.ID, Ev: "op", Op: op.Op, OpMode: op.Mode, I: op.I, Reason: op.Reason, Faults: op.Faults, J: op.J, Reason2: op.Reason2}
 		notesFrom := len(w.Snapshot())
 		var err error
 		var hg bool
@@ -329,6 +334,40 @@ func (r *Runner) Run(h *History) ([]Line, bool, error) {
 			cur := snapshot()
 			if p, ok := cur[op.I]; ok {
 				inject(r.Node, p, op.Reason)
+			}
+		case "fault2":
+			cur := snapshot()
+			pi, oki := cur[op.I]
+			pj, okj := cur[op.J]
+			if oki && okj && op.I != op.J {
+				entered, release := make(chan struct{}), make(chan struct{})
+				r2 := op.Reason2
+				r.Node.Send(pj, gated.Cmd{Fn: func(*gated.Scripted) error {
+					close(entered)
+					<-release
+					switch r2 {
+					case "normal":
+						return gen.TerminateReasonNormal
+					case "shutdown":
+						return gen.TerminateReasonShutdown
+					}
+					return errors.New("R:" + r2)
+				}})
+				select {
+				case <-entered:
+				case <-time.After(time.Second):
+				}
+				inject(r.Node, pi, op.Reason)
+				time.Sleep(3 * time.Millisecond)
+				close(release)
+			} else {
+				if oki {
+					inject(r.Node, pi, op.Reason)
+					quiesce()
+				}
+				if p, ok := snapshot()[op.J]; ok {
+					inject(r.Node, p, op.Reason2)
+				}
 			}
 		}
 		if hg {
